@@ -16,6 +16,7 @@ RULE = (
     "lie in the same space, vspace(u)==vspace(w) iff structure/shapes/dtypes agree (pairs equal by construction and differing in "
     "exactly one of those), mut_add(None,x) shares no memory with x and leaves x unchanged. Non-trivial = anything other than a "
     "float64 array of rank 1-2; distinct by the value's type/shape/dtype structure."
+    ' Value types include the result objects of numpy.linalg; closure also for scalars typed by NumPy (numpy.float64, 0-d arrays, inner products).'
 )
 
 DT = ["float16", "float32", "float64", "longdouble", "complex64", "complex128", "clongdouble"]
